@@ -1,7 +1,7 @@
 """C14 - accepted type restrictions only ever narrow what instances are valid."""
 import itertools
 
-from vk import env, modelkit as K
+from vk import env, modelkit as K, pinned
 from vk.gen import models as M
 from vk.ref import contentmodel as R
 
@@ -201,7 +201,13 @@ def judge_content(res, xmlschema, base, cfg, origin, maxlen, rng, limit):
                     res.count('library_witness_not_confirmed_by_reference(C01 defect)')
             if found is not None:
                 case = {'base': base, 'derived': derived, 'cfg': cfg, 'version': version, 'word': found, 'label': label}
-                res.violation(f'content:{version}:{family(label)}', case,
+                # listed families are weaknesses of the pinned restriction checker: if the pinned methods (run inside
+                # the live library) refuse this pair, the tree accepts something the pinned checker did not
+                with pinned.pinned_restriction_checker():
+                    pinned_accepts = build(cls, text)[0] is not None
+                res.count(f'{version}:unsound_acceptance:' + ('same_as_pinned_checker' if pinned_accepts else 'differs_from_pinned_checker'))
+                suffix = '' if pinned_accepts else ':not-the-verdict-of-the-pinned-checker'
+                res.violation(f'content:{version}:{family(label)}{suffix}', case,
                               f'{version}: {M.text(derived)} accepted as restriction of {M.text(base)}{K.cfg_text(cfg)} but '
                               f'{"".join(found) or "<empty>"} is valid for the derived type only ({origin}; edit {label})')
             elif not included:
@@ -285,6 +291,9 @@ def judge_redefine(res, xmlschema, base, cfg, origin, maxlen, rng, limit, scratc
                     others = [accepted_by['type']] + ([accepted_by['redefine']] if route == 'redefine-chain' else [])
                     mech = f'content:{version}:{family(label)}' if any(v != 'refused-as-restriction' for v in others) else \
                         f'{route}:{version}:accepted-although-refused-as-restriction-by-the-other-routes'
+                    with pinned.pinned_restriction_checker():
+                        if build(cls, os.path.join(scratch, entry))[0] is None:
+                            mech += ':not-the-verdict-of-the-pinned-checker'
                     res.violation(mech, case,
                                   f'{version} {route}: group {M.text(derived)} accepted as redefinition (restriction) of '
                                   f'{M.text(base)}{K.cfg_text(cfg)} but {"".join(found) or "<empty>"} is valid for the new group only '
